@@ -25,7 +25,11 @@ RULE = ('per shipped scheme a pool of generated molecules (quick ~45, '
         'decided); distinct by (scheme, A, B).'
         ' Argument forms: dotted SMILES text, a Mol of the dotted SMILES, '
         'CombineMols of the component Mols (object forms judged against '
-        'components given as objects). ')
+        'components given as objects). '
+        ' '
+        'Round 18: pairs / triples of chains of 10-60 carbons (components'
+        ' below, mixture above any saturation size), in processes that first'
+        ' toured the rest of the package.')
 ASSUMPTIONS = [
     'shipped schemes contain no molecule-level prefixes (scanned by C14); the '
     'statement is quantified over shipped schemes',
